@@ -42,6 +42,42 @@ def _is_release(call: ast.Call, kind: str) -> bool:
     return name == kind
 
 
+def _helper_must_release(cls, call: ast.Call, kind: str, depth: int = 0) -> bool:
+    """`self.<m>()` where method m of the same class calls the release of `kind` on every normal path (releases themselves are
+    assumed not to raise - the stated fault model), directly or through one more such helper."""
+    if not (isinstance(call.func, ast.Attribute) and isinstance(call.func.value, ast.Name) and call.func.value.id == "self") or call.args or call.keywords or depth > 2:
+        return False
+    h = cls.method(call.func.attr)
+    if h is None:
+        return False
+    g = cfgmod.build(h.node, lambda n: False)
+    rel = set()
+    for n in g.stmt_nodes():
+        if n.stmt is None or n.kind != "stmt":
+            continue
+        for c in ast.walk(n.stmt):
+            if isinstance(c, ast.Call) and (_is_release(c, kind) or _helper_must_release(cls, c, kind, depth + 1)):
+                rel.add(n.id)
+    if not rel:
+        return False
+    return g.must_pass(g.entry, rel, {g.exit}) is None
+
+
+def _helper_effects(cls, call: ast.Call, pred, depth: int = 0) -> Optional[str]:
+    """name of a terminal effect performed by the same-class helper `self.<m>()`, if any"""
+    if not (isinstance(call.func, ast.Attribute) and isinstance(call.func.value, ast.Name) and call.func.value.id == "self") or depth > 2:
+        return None
+    h = cls.method(call.func.attr)
+    if h is None:
+        return None
+    for c in walk_local(h.node):
+        if isinstance(c, ast.Call):
+            e = pred(c) or _helper_effects(cls, c, pred, depth + 1)
+            if e:
+                return e
+    return None
+
+
 def r10_1(ctx):
     ctx.rule("R10.1", "cleanup on every exit: each acquisition made by start() (cursor hidden, io redirected, render hook pushed) has its release in stop(), and in stop()'s CFG with exceptional edges from every may-raise statement every path from the `_started = False` store to any exit, normal or raising, passes through all releases; __exit__ calls stop() on every path and never swallows the exception; _disable_redirect_io restores exactly the streams _enable_redirect_io saved")
     pairs = 0
@@ -61,7 +97,7 @@ def r10_1(ctx):
         for n in walk_local(stop.node):
             if isinstance(n, ast.Call):
                 for k in needed:
-                    if _is_release(n, k):
+                    if _is_release(n, k) or _helper_must_release(cls, n, k):
                         rel_calls[k].append(n)
         release_stmt_ids = set()
         for k, lst in rel_calls.items():
@@ -320,6 +356,8 @@ def r10_3(ctx):
                     continue
                 found = True
                 from ..linear import local_subst
+                from .common import close_expr
+                arg = close_expr(m, arg)
                 res = _count_terms(arg, local_subst(m.node))
                 where = f"{m.module.relpath}:{r.lineno}"
                 if res is None:
@@ -361,34 +399,49 @@ def r10_3(ctx):
 
 def r10_4(ctx):
     ctx.rule("R10.4", "every print/log while live is wrapped: both hooks return [position_cursor(), *renderables, live_render] on a terminal; Console.print and Console.log pass their renderables through every render hook before rendering them")
+    from ..yieldpaths import Unsupported, paths_of, resolve, select, show
     for spec in ("live:Live.process_renderables", "progress:Progress.process_renderables"):
         f = ctx.repo.fn(spec)
         param = f.params[1]
-        found = 0
-        for n in walk_local(f.node):
-            if isinstance(n, ast.Assign) and isinstance(n.value, ast.List) and len(n.value.elts) >= 3 and norm(n.targets[0]) == param:
-                el = n.value.elts
-                first, last = el[0], el[-1]
-                mid = el[1:-1]
-                okf = isinstance(first, ast.Call) and norm(first.func).endswith("_live_render.position_cursor")
-                okm = len(mid) == 1 and isinstance(mid[0], ast.Starred) and norm(mid[0].value) == param
-                okl = norm(last).endswith("_live_render")
-                found += 1
-                # under is_terminal
-                par = f.module.parent_of.get(n)
-                guard = None
-                cur = par
-                while cur is not None and cur is not f.node:
-                    if isinstance(cur, ast.If):
-                        guard = cur
-                    cur = f.module.parent_of.get(cur)
-                okg = guard is not None and "is_terminal" in norm(guard.test)
-                ctx.check(okf and okm and okl and okg, f.fq, short(n), f"{f.module.relpath}:{n.lineno}", "terminal: [erase previous frame, *user output, new frame]",
-                          f"process_renderables builds `{short(n.value)}`: not [position_cursor(), *{param}, live_render] under is_terminal - printed lines are overwritten or old frames remain")
-        if not found:
-            ctx.violation(f.fq, "no wrapping list", f.where, "process_renderables no longer wraps the user's output between the eraser and the new frame")
-        rets = [r for r in walk_local(f.node) if isinstance(r, ast.Return)]
-        ctx.check(all(r.value is not None and norm(r.value) == param for r in rets) and rets, f.fq, "return " + param, f.where, "returns the wrapped list", "process_renderables does not return the (wrapped) renderables on every path")
+        try:
+            P = [resolve(p) for p in paths_of(f.node)]
+        except Unsupported as u:
+            raise AnalysisError(f"{spec}: statement outside the path normal form ({u}); the wrapping clause cannot be decided")
+        term = select(P, {"self.console.is_terminal": True})
+        ok = bool(term)
+        bad = None
+        for p in term:
+            rets = [e for e in p if e[0] == "return"]
+            good = False
+            if len(rets) == 1 and rets[0][1] is not None:
+                try:
+                    v = ast.parse(rets[0][1], mode="eval").body
+                except SyntaxError:
+                    v = None
+                if isinstance(v, ast.List) and len(v.elts) == 3:
+                    first, mid, last = v.elts
+                    good = (isinstance(first, ast.Call) and isinstance(first.func, ast.Attribute) and first.func.attr == "position_cursor" and not first.args
+                            and isinstance(mid, ast.Starred) and norm(mid.value) == param
+                            and norm(last) == norm(first.func.value) and norm(last).endswith("_live_render"))
+            if not good:
+                ok, bad = False, p
+        ctx.check(ok, f.fq, show(bad)[:300] if bad else f"[position_cursor(), *{param}, live_render]", f.where, f"terminal: every path ({len(term)}) returns [erase previous frame, *user output, new frame]",
+                  f"process_renderables does not return [position_cursor(), *{param}, live_render] on every terminal path - printed lines are overwritten or old frames remain" + (f" [path: {show(bad)[:200]}]" if bad else ""))
+        # every path returns a list that contains the user's renderables, unmodified and in order
+        okall = bool(P)
+        for p in P:
+            rets = [e for e in p if e[0] == "return"]
+            if len(rets) != 1 or rets[0][1] is None:
+                okall = False
+                continue
+            try:
+                v = ast.parse(rets[0][1], mode="eval").body
+            except SyntaxError:
+                okall = False
+                continue
+            if not (norm(v) == param or (isinstance(v, ast.List) and sum(1 for e in v.elts if isinstance(e, ast.Starred) and norm(e.value) == param) == 1)):
+                okall = False
+        ctx.check(okall, f.fq, "return " + param, f.where, "every path returns the user's renderables (wrapped or not)", "process_renderables does not return the (wrapped) renderables on every path")
     for spec in ("console:Console.print", "console:Console.log"):
         f = ctx.repo.fn(spec)
         g = cfgmod.build(f.node)
@@ -432,12 +485,20 @@ def r10_5(ctx):
         if not flips:
             raise AnchorVanished(f"{spec}: `_started = False` store not found")
 
+        cls = f.cls
+
+        def direct(c):
+            fn = norm(c.func)
+            if fn.startswith("self.console.") and fn not in ("self.console.is_terminal",) or fn in ("self.refresh", "self._disable_redirect_io") or fn.endswith(".restore_cursor") or fn.endswith(".position_cursor"):
+                return fn
+            return None
+
         def effect(st):
             for c in ast.walk(st):
                 if isinstance(c, ast.Call):
-                    fn = norm(c.func)
-                    if fn.startswith("self.console.") and fn not in ("self.console.is_terminal",) or fn in ("self.refresh", "self._disable_redirect_io") or fn.endswith(".restore_cursor") or fn.endswith(".position_cursor"):
-                        return fn
+                    e = direct(c) or _helper_effects(cls, c, direct)
+                    if e:
+                        return e
             return None
         seen_stmts = set()
         for n in g.stmt_nodes():
@@ -453,7 +514,7 @@ def r10_5(ctx):
             n_sites += 1
             ctx.check(ok, f.fq, short(n.stmt), f"{f.module.relpath}:{n.stmt.lineno}", f"`{eff}(...)` runs only when the display was started",
                       f"`{short(n.stmt)}` in {f.qualname} is reachable when `_started` is already False: a second stop() (e.g. stop() inside the with-block, then __exit__) emits it again - for a transient display restore_cursor erases that many printed lines")
-    ctx.floor(n_sites, 8, "terminal-effect statements in Live.stop / Progress.stop")
+    ctx.floor(n_sites, 4, "terminal-effect statements in Live.stop / Progress.stop")
 
 
 def r10_6(ctx):
